@@ -12,6 +12,8 @@ def _t(level, technique, note=''):
 TEXT = {
     'C01': _t('Decides: epsilon_closure is a complete saturation (nothing dropped, exits only on empty worklist), partial-map reads are guarded, operands untouched. Not decided: equality with the textbook relation.',
               'AST worklist-discipline rule on CFG guards + alias/effect summaries'),
+    'C02': _t('Decides: for n = 0..4 the word lengths that can reach the result of each enumerator are exactly 0..n (upper bound and level coverage, including n = 0 and n = 1); induction step per constructor for the regular-expression enumerator; kind dispatch and sibling tables; same TM budget / PDA limit on both sides; closedness and CNF typestates inside the enumerators. Not decided: nothing-missing / nothing-extra relative to the acceptance tests.',
+              'abstract interpretation of the enumerator bodies over word lengths (own interpreter in the analyser, concrete n) + dispatch-table and typestate rules'),
     'C03': _t('Decides: subset worklist enqueues exactly unseen subsets, operand untouched, guarded reads. Not decided: language equivalence.',
               'AST worklist-discipline rule + alias/effect summaries'),
     'C04': _t('Decides: the three refinement loops stop only at a stable partition and register every change; input DFA untouched. Not decided: that the partition is Myhill-Nerode, equivalence, order independence of the language.',
